@@ -501,6 +501,7 @@ pub enum NodeEvent {
     ChunkStored(::ant_protocol::storage::ChunkAddress),
     RewardReceived(::ant_evm::AttoTokens, ::ant_protocol::NetworkAddress),
 }
+#[derive(Clone)]
 pub struct EventsChannel;
 impl EventsChannel {
     pub fn broadcast(&self, _e: NodeEvent) {}
@@ -539,6 +540,12 @@ pub struct NetInner {
     pub put_count: Cell<usize>,
     /// quotes of other nodes handed down for comparison with the collected history
     pub handed_to_history_check: RefCell<Vec<(PeerId, crate::data_payments::PaymentQuote)>>,
+    /// request/response with one peer: what the peer will answer (None: the request itself fails), and what was asked
+    pub peer_reply: RefCell<Option<::ant_protocol::messages::Response>>,
+    pub requests: RefCell<Vec<(::ant_protocol::messages::Request, PeerId)>>,
+    /// a read through the network (any holders): scripted outcome, and the keys asked for
+    pub network_reply: RefCell<Option<Record>>,
+    pub network_reads: RefCell<Vec<RecordKey>>,
 }
 #[derive(Clone)]
 pub struct Network {
@@ -562,6 +569,10 @@ impl Network {
                 fetch_completed: RefCell::new(vec![]),
                 put_count: Cell::new(0),
                 handed_to_history_check: RefCell::new(vec![]),
+                peer_reply: RefCell::new(None),
+                requests: RefCell::new(vec![]),
+                network_reply: RefCell::new(None),
+                network_reads: RefCell::new(vec![]),
             }),
         }
     }
@@ -580,6 +591,14 @@ impl Network {
     }
     pub fn get_pub_key(&self) -> Vec<u8> {
         libp2p::identity::PublicKey(self.key_no()).encode_protobuf()
+    }
+    pub async fn send_request(&self, req: ::ant_protocol::messages::Request, peer: PeerId) -> NResult<::ant_protocol::messages::Response> {
+        self.inner.requests.borrow_mut().push((req, peer));
+        self.round_trip(|i| i.peer_reply.borrow_mut().take()).await.ok_or(::ant_networking::NetworkError::InternalMsgChannelDropped)
+    }
+    pub async fn get_record_from_network(&self, key: RecordKey, _cfg: &::ant_networking::GetRecordCfg) -> NResult<Record> {
+        self.inner.network_reads.borrow_mut().push(key);
+        self.round_trip(|i| i.network_reply.borrow_mut().take()).await.ok_or(::ant_networking::NetworkError::GetRecordError(::ant_networking::GetRecordError::RecordNotFound))
     }
     pub fn historical_verify_quotes(&self, quotes: Vec<(PeerId, crate::data_payments::PaymentQuote)>) {
         self.inner.handed_to_history_check.borrow_mut().extend(quotes);
@@ -660,6 +679,7 @@ impl Network {
 
 pub mod node {
     use super::*;
+    #[derive(Clone)]
     pub struct Node {
         pub network: Network,
         pub evm: ::ant_evm::EvmNetwork,
